@@ -333,7 +333,10 @@ def isSorted : List Int → Bool
   | _ => true
 
 /-- `ringK` = the bounded, deliberately non-thread-safe ring buffer of capacity K defined in the harness -/
-def ringCap (impl : String) : Option Nat :=
+def ringCap (impl0 : String) : Option Nat :=
+  -- `cc-<impl>`: a wrapper wrapping a wrapper of <impl>; calls arrive through both handles, but the underlying
+  -- sequential object — hence the model and the spec — is the same
+  let impl := if impl0.startsWith "cc-" then (impl0.drop 3).toString else impl0
   if impl.startsWith "ring" then (impl.drop 4).toString.toNat? else none
 
 def sysQ (impl : String) : Sys (List Int) QOp Ret :=
